@@ -205,6 +205,9 @@ impl Peer {
     }
     fn pump_raw(&mut self) {
         let t0 = std::time::Instant::now();
+        // waiting is done in poll(2) on the server's stdout with a growing time-out, not by spinning over /proc: on a busy
+        // machine the server may take milliseconds to be scheduled, and a polling client only makes that worse
+        let mut wait_us: u64 = 50;
         loop {
             if self.eof {
                 return;
@@ -216,26 +219,26 @@ impl Peer {
             if self.eof {
                 return;
             }
-            match st {
-                St::ReadsStdin if self.stdin.is_some() => return,
-                St::ReadsStdin | St::Exited => {
-                    // its stdin is closed / it is gone: whatever is left arrives with EOF
-                    if n == 0 {
-                        std::thread::sleep(std::time::Duration::from_micros(50));
-                    }
-                }
-                St::Busy => {
-                    if n == 0 {
-                        std::thread::sleep(std::time::Duration::from_micros(50));
-                    }
-                }
+            if st == St::ReadsStdin && self.stdin.is_some() {
+                return;
             }
-            if t0.elapsed().as_secs() > 180 {
-                self.pump_error = Some("server neither answered nor waited for input within 180s".into());
+            if n == 0 {
+                self.wait_readable(wait_us);
+                wait_us = (wait_us * 2).min(4_000);
+            } else {
+                wait_us = 50;
+            }
+            if t0.elapsed().as_secs() > 600 {
+                self.pump_error = Some("server neither answered nor waited for input within 600s".into());
                 self.eof = true;
                 return;
             }
         }
+    }
+    fn wait_readable(&self, micros: u64) {
+        let mut fds = libc::pollfd { fd: self.stdout.as_raw_fd(), events: libc::POLLIN, revents: 0 };
+        let ts = libc::timespec { tv_sec: 0, tv_nsec: (micros * 1000) as i64 };
+        unsafe { libc::ppoll(&mut fds, 1, &ts, std::ptr::null()) };
     }
     pub fn close_stdin(&mut self) {
         self.stdin = None;
@@ -247,7 +250,7 @@ impl Peer {
         while !self.eof && t0.elapsed().as_secs() < 60 {
             let n = self.drain();
             if n == 0 && !self.eof {
-                std::thread::sleep(std::time::Duration::from_micros(100));
+                self.wait_readable(2_000);
             }
         }
         if !self.eof {
@@ -366,7 +369,7 @@ impl Write for PeerWrite {
                         Ok(k) => off += k,
                         Err(e) if e.kind() == io::ErrorKind::WouldBlock => {
                             p.drain();
-                            std::thread::sleep(std::time::Duration::from_micros(50));
+                            p.wait_readable(200);
                             if t0.elapsed().as_secs() > 180 {
                                 return Err(io::Error::new(io::ErrorKind::TimedOut, "server does not read"));
                             }
